@@ -4,7 +4,7 @@
 //! trusted: R15 (deep slice): process_events, UpdateHTLCs arm: the statement that announces a batch of commitment_signed messages, verbatim (the enqueue macro call is dropped; the function returns the StartBatch it would enqueue); CommitmentSigned::TYPE is the BOLT 2 message type 132
 //! assume: at most 65535 commitment_signed messages per update (one per funding scope; `len() as u16`)
 //! trusted: R15 (deep slice): do_attempt_write_data: the statement that advances the gossip-backfill cursor past the channel just sent, verbatim as a function of the announcement (InitSyncTracker skeleton); the short_channel_id is NOT bounded by a precondition: a graph without chain access accepts any id a peer announces (finding F5)
-//! trusted: R15 (deep slices): do_handle_message_holding_peer_lock: the test that refuses a non-Init message while no Init has been accepted and the test that refuses a second Init, verbatim as functions of the peer (skeleton {their_features}); the feature / chain compatibility tests and the handlers' peer_connected notifications are not sliced (handlers are reached through shared references to objects with interior state)
+//! trusted: R15 (deep slices): do_handle_message_holding_peer_lock: the test that refuses a non-Init message while no Init has been accepted and ALL the tests between computing our features and accepting an Init (unknown required features either way, an Init already accepted), verbatim as a function of the peer, the message and our features (feature sets opaque, `requires_unknown_bits_from` uninterpreted; the log statements dropped by R3); the feature / chain compatibility tests and the handlers' peer_connected notifications are not sliced (handlers are reached through shared references to objects with interior state)
 //! trusted: R15 (statement slicing, deep form): do_read_event is ~600 lines under three locks with function-local macros; the unit extracts, on every run, (a) the statements between `let msg_len = ..decrypt_length_header..` and `peer.pending_read_is_header = false;` and (b) the "Reset read buffer" statements of the body branch, verbatim, as two functions of the two Peer fields they touch; everything else of do_read_event is dropped and not claimed
 //! trusted: env: Peer skeleton {pending_read_buffer, pending_read_is_header}; PeerHandleError empty struct (as in the source)
 //! trusted: assume_specification for Vec::capacity (some value >= len; std definition)
@@ -231,14 +231,30 @@ pub struct GatePeer { pub their_features: Option<InitFeatures> }
 //@with
     } else if peer_lock.their_features.is_some() {
 //@end
+pub struct Features { pub id: u64 }
+pub uninterp spec fn requires_unknown(a: Features, b: Features) -> bool;
+impl Features { #[verifier::external_body] pub fn requires_unknown_bits_from(&self, other: &Features) -> (r: bool) ensures r == requires_unknown(*self, *other) { unimplemented!() } }
+pub struct InitMsg { pub features: Features }
+pub struct PeerFeatures { pub their_features: Option<Features> }
+pub struct PublicKey(pub u64);
+pub struct MessageHandlingError {}
+impl PeerHandleError { #[verifier::external_body] pub fn into(self) -> MessageHandlingError { unimplemented!() } }
+pub struct Manager { pub ours: Features }
+impl Manager {
+    #[verifier::external_body] pub fn init_features(&self, their_node_id: PublicKey) -> (r: Features) ensures r == self.ours { unimplemented!() }
 //@extract lightning/src/ln/peer_handler.rs :: impl PeerManager :: fn do_handle_message_holding_peer_lock
 //@slice R15
-    if $c:cond { return Err(PeerHandleError {}.into()); } if msg.features.initial_routing_sync() && !msg.features.supports_gossip_queries() {
+    let our_features = self.init_features(their_node_id); $checks:any if msg.features.initial_routing_sync() && !msg.features.supports_gossip_queries() {
 //@with
-    fn second_init_is_refused(peer_lock: &GatePeer) -> bool { $c }
+    fn an_init_is_accepted(&self, peer_lock: &PeerFeatures, msg: &InitMsg, their_node_id: PublicKey) -> Result<(), MessageHandlingError> { let our_features = self.init_features(their_node_id); $checks Ok(()) }
 //@ret r
-//@ensures P C15 an-init-from-a-peer-whose-init-was-already-accepted-is-refused
-    r == (peer_lock.their_features is Some),
+//@ensures P C15 an-init-is-accepted-only-from-a-peer-whose-init-was-not-accepted-before-and-whose-required-features-we-know-and-who-knows-ours
+    r is Ok <==> (peer_lock.their_features is None && !requires_unknown(msg.features, self.ours) && !requires_unknown(self.ours, msg.features)),
+//@mutant second_init_on_a_live_connection_accepted
+    if peer_lock.their_features.is_some() { return Err(PeerHandleError {}.into()); }
+//@with
+
 //@end
+}
 }
 fn main() {}
